@@ -114,6 +114,35 @@ def emode_dupes(pid):
     return f
 
 
+def emode_leverage(pid):
+    def f(op, impl, model):
+        """adm.emode lInit lMaint maxInitLev maxMaintLev <10 entries x (tag flags init maint)>: accepted by the implementation, refused by
+        the exact rule; the rule is re-evaluated here with exact rationals to name the entry"""
+        if not op.startswith("adm.emode") or not impl.startswith("ok") or not model.startswith("err"):
+            return None
+        try:
+            a = [int(x) for x in op.split()[1:]]
+        except ValueError:
+            return None
+        li, lm, ci, cm = a[0], a[1], a[2], a[3]
+        ent = a[4:]
+        U32 = 4294967295
+        for k in range(0, len(ent) - 3, 4):
+            tag, _, wi, wm = ent[k:k + 4]
+            if tag == 0:
+                continue
+            for (w, l, cap, what) in ((wi, li, ci, "initial"), (wm, lm, cm, "maintenance")):
+                if w >= l:
+                    return (f"{pid} an e-mode entry (tag {tag}) whose {what} weight {w} is not below the bank's liability weight {l} is ACCEPTED: the implied "
+                            f"leverage is unbounded: {op}")
+                # leverage l/(l-w) above cap*100/U32 (with a 1e-6 relative allowance for the fixed-point evaluation)
+                if cap > 0 and l * U32 * 1000000 > cap * 100 * (l - w) * 1000001:
+                    return (f"{pid} an e-mode entry (tag {tag}) is ACCEPTED whose {what} weight {w} against the bank's liability weight {l} implies a leverage of "
+                            f"{l / (l - w):.4f}x, above the group's cap of {cap * 100 / U32:.4f}x: {op}")
+        return (f"{pid} an e-mode configuration the exact validation refuses ({model}) is ACCEPTED: {op}")
+    return f
+
+
 def accepted_invalid_curve(pid):
     def f(op, impl, model):
         """adm.ixir / adm.ixcfg: the REAL instruction stored a configuration that the (modelled, diffed) validation rejects"""
@@ -413,7 +442,7 @@ def c06_accrual(op, impl, model):
 
 WITNESS = {
     "C04": [c04_health, emode_dupes("C04")],
-    "C13": [emode_dupes("C13"), accepted_invalid_curve("C13")],
+    "C13": [emode_dupes("C13"), emode_leverage("C13"), accepted_invalid_curve("C13")],
     "C18": [accepted_invalid_curve("C18")],
     "C12": [accepted_invalid_curve("C12"), bracket_conditions("C12")],
     "C05": [c05_health, c05_liq, value_scaling("C05"), c05_conditions],
